@@ -453,7 +453,7 @@ func randomFileC12(r *rand.Rand) FileDef {
 	kinds := fileKinds(r, kindsC12, []string{"AuxA", "AuxB"})
 	for i := 0; i < nt; i++ {
 		e, distinct := genTraitEnum(r, nm, fmt.Sprintf("E%d", i), &blk,
-			traitSpec{kinds: kinds, maxCols: 5, maxConsts: 10, dupCells: 12, dupNoCells: 15, plainNoCells: 4, namedCells: 8})
+			traitSpec{kinds: kinds, maxCols: 5, maxConsts: 10, dupCells: 22, dupNoCells: 15, plainNoCells: 4, namedCells: 8})
 		fd.Enums = append(fd.Enums, e)
 		if r.IntN(5) > 0 {
 			parsable = append(parsable, pickParsable(r, distinct)...)
@@ -591,6 +591,30 @@ func corpusC12() []FileDef {
 			Const{Name: "Qb", Val: "1", Cells: []Cell{cellOf(ks, "_", "x<y>&z", 0, false), cellOf(kS, "_", "tab\there", 0, false)}},
 			Const{Name: "Qc", Val: "2", Cells: []Cell{cellOf(ks, "_", "caf\u00e9\u2028", 0, false), cellOf(kS, "_", "plain", 0, false)}}),
 	}})
+	// 9. a parsable plain-string trait that spells its value's own name (must generate, Parse returns
+	//    the owner) / the name of another definition (must be refused)
+	o9 := defaultOpts()
+	o9.Parsable = []string{"Label"}
+	out = append(out, FileDef{Kind: "corpus", Opts: o9, Traits: true, Enums: []EnumDef{
+		traitEnum("E0", uByName("int"), 0, []TypeInfo{typeInfoOf(ks)},
+			Const{Name: "Red", Val: "0", Cells: []Cell{cellOf(ks, "_Label", "Red", 0, false)}},
+			Const{Name: "Blue", Val: "1", Cells: []Cell{cellOf(ks, "_", "blu", 0, false)}}),
+	}})
+	out = append(out, FileDef{Kind: "corpus", Opts: o9, Traits: true, Enums: []EnumDef{
+		traitEnum("E0", uByName("int"), 0, []TypeInfo{typeInfoOf(ks)},
+			Const{Name: "Red", Val: "0", Cells: []Cell{cellOf(ks, "_Label", "Blue", 0, false)}},
+			Const{Name: "Blue", Val: "1", Cells: []Cell{cellOf(ks, "_", "x", 0, false)}}),
+	}})
+	// 10. a deprecated alias that sorts BEFORE the live name of its value and carries other trait
+	//     constants: the accessors must return the live (primary) line's cells
+	o10 := defaultOpts()
+	o10.Parsable = []string{"Legs"}
+	out = append(out, FileDef{Kind: "corpus", Opts: o10, Traits: true, Enums: []EnumDef{
+		traitEnum("E0", uByName("int"), 0, []TypeInfo{typeInfoOf(ki), typeInfoOf(ks)},
+			Const{Name: "Ant", Val: "0", Cells: []Cell{cellOf(ki, "_Legs", "", 6, false), cellOf(ks, "_Sound", "t.none", 0, false)}},
+			Const{Name: "Cat", Val: "1", Cells: []Cell{cellOf(ki, "_", "", 4, false), cellOf(ks, "_", "t.meow", 0, false)}},
+			Const{Name: "Abe", Val: "1", Dep: true, Form: "alias", Rhs: "Cat", Cells: []Cell{cellOf(ki, "_", "", 5, false), cellOf(ks, "_", "t.old", 0, false)}}),
+	}})
 	// 6. two parsable traits with equal cells on one line: the Parse case lists the constant twice
 	o6 := defaultOpts()
 	o6.Parsable = []string{"Wa", "Wb"}
@@ -633,6 +657,13 @@ func tagParsable(fd *FileDef) {
 				}
 				if narrowBits(cl.Ty) > 0 {
 					add("parsable_narrow_int_trait")
+				}
+				if cl.Kind == "str" && cl.Ty == "string" {
+					for _, k := range e.Consts {
+						if k.Name == cl.Str {
+							add("parsable_trait_equals_name")
+						}
+					}
 				}
 				key := cl.Ty + "|" + cl.Kind + "|" + cl.Str + "|" + cl.Int + "|" + strconv.FormatBool(cl.Bool)
 				if seen[key] {
